@@ -100,14 +100,24 @@ def n3(n):
 # ------------------------------------------------------------------ request text
 
 
-def _block(quads):
-    """quads grouped the way a user writes them: runs of equal graph; default-graph runs as plain triples,
-    the others as one GRAPH block each"""
+def _block(quads, split=False):
+    """quads the way a user writes them: runs of equal graph (with `split`: every quad on its own);
+    default-graph runs as plain triples, the others as one GRAPH block each.  The same graph may therefore be
+    named by several GRAPH blocks of one operation (translateQuads has to collect them all)."""
     out = []
-    for g, grp in itertools.groupby(quads, key=lambda q: q[3]):
+    runs = ([(q[3], [q]) for q in quads] if split
+            else [(g, list(grp)) for g, grp in itertools.groupby(quads, key=lambda q: q[3])])
+    for g, grp in runs:
         ts = " . ".join(f"{n3(s)} {n3(p)} {n3(o)}" for s, p, o, _g in grp)
         out.append(ts + " ." if g == 0 else f"GRAPH {n3(g)} {{ {ts} }}")
     return " ".join(out)
+
+
+def repeated_graph_blocks(quads, split=False):
+    """number of graph terms that the text of this quad list names in two or more GRAPH blocks"""
+    runs = [q[3] for q in quads] if split else [g for g, _ in itertools.groupby(quads, key=lambda q: q[3])]
+    named = [g for g in runs if g != 0]
+    return sum(1 for g in set(named) if named.count(g) > 1)
 
 
 def _gref(t):
@@ -121,19 +131,19 @@ def _gref2(t):
 def op_text(op):
     k = op["k"]
     if k == "insertdata":
-        return f"INSERT DATA {{ {_block(op['q'])} }}"
+        return f"INSERT DATA {{ {_block(op['q'], op.get('split'))} }}"
     if k == "deletedata":
-        return f"DELETE DATA {{ {_block(op['q'])} }}"
+        return f"DELETE DATA {{ {_block(op['q'], op.get('split'))} }}"
     if k == "deletewhere":
-        return f"DELETE WHERE {{ {_block(op['q'])} }}"
+        return f"DELETE WHERE {{ {_block(op['q'], op.get('split'))} }}"
     if k == "modify":
         parts = []
         if op.get("with"):
             parts.append(f"WITH {n3(op['with'])}")
         if op.get("del") is not None:
-            parts.append(f"DELETE {{ {_block(op['del'])} }}")
+            parts.append(f"DELETE {{ {_block(op['del'], op.get('split'))} }}")
         if op.get("ins") is not None:
-            parts.append(f"INSERT {{ {_block(op['ins'])} }}")
+            parts.append(f"INSERT {{ {_block(op['ins'], op.get('split'))} }}")
         for g in op.get("using", []):
             parts.append(f"USING {n3(g)}")
         for g in op.get("named", []):
@@ -579,6 +589,12 @@ def run_impl(case):
              "minted": len({x for q in quads for x in q if x >= 1000}), **info}
     for o in case["ops"]:
         stats["op_" + o["k"]] = stats.get("op_" + o["k"], 0) + 1
+        for f in ("q", "del", "ins"):
+            if o.get(f) and repeated_graph_blocks(o[f], o.get("split")):
+                key = "graph_in_several_blocks_" + (o["k"] if f == "q" else f)
+                stats[key] = stats.get(key, 0) + 1
+                if any(kind(q[3]) == "v" for q in o[f]):
+                    stats["graph_var_in_several_blocks"] = stats.get("graph_var_in_several_blocks", 0) + 1
         if o["k"] == "modify":
             for f in ("with", "using", "named", "filter", "del", "ins"):
                 if o.get(f):
@@ -709,7 +725,7 @@ def _gen_case(rng, tier, i):
     def pat_term(pool, pvar):
         return rng.choice(VARS) if rng.random() < pvar else rng.choice(pool)
 
-    def pattern(n, graphs, dflt_from=None):
+    def pattern(n, graphs, dflt_from=None, grouped=True):
         """n triple patterns over `graphs`; mostly generalisations of triples that are there (so that the
         pattern has solutions), a later pattern sharing a term (hence a variable) with an earlier one"""
         out, names = [], {}
@@ -735,6 +751,8 @@ def _gen_case(rng, tier, i):
                             var_for(q[2]) if rng.random() < 0.65 else q[2], g])
             else:
                 out.append([pat_term(subj, 0.7), pat_term(pred, 0.3), pat_term(obj, 0.7), g])
+        if not grouped:
+            return out
         out.sort(key=lambda q: (q[3] != 0,))      # default triples first, blocks keep their order
         # equal graphs adjacent (one GRAPH block per graph)
         seen, res = [], []
@@ -745,7 +763,7 @@ def _gen_case(rng, tier, i):
             res += [q for q in out if q[3] == g]
         return res
 
-    def template(wvars, n, graphs, bnodes):
+    def template(wvars, n, graphs, bnodes, grouped=True):
         out = []
         pool_v = wvars or VARS[:1]
         for _ in range(n):
@@ -758,6 +776,8 @@ def _gen_case(rng, tier, i):
                 return rng.choice(pool)
             g = rng.choice(graphs)
             out.append([tt(subj, 0.6, True), tt(pred, 0.35, False), tt(obj, 0.6, True), g])
+        if not grouped:
+            return out
         seen, res = [], []
         for q in out:
             if q[3] not in seen:
@@ -765,6 +785,21 @@ def _gen_case(rng, tier, i):
         for g in sorted(seen, key=lambda g: g != 0):
             res += [q for q in out if q[3] == g]
         return res
+
+    def repeat_pool(force=None):
+        """sometimes: a pool of graph terms in which one named graph dominates, so that the operation names it
+        in several GRAPH blocks (interleaved with default-graph triples and another graph)"""
+        if single or rng.random() > 0.3:
+            return None
+        g = (force or [rng.choice(anyg)])[0]
+        return [g, g, g, 0, rng.choice(anyg)]
+
+    def layout(q, rep):
+        """quad list as it will be written: grouped by graph (one block per graph) or, for `rep`, as drawn
+        (runs become blocks) and sometimes every quad in a block of its own"""
+        if not rep:
+            return {"q": _group(q)}
+        return {"q": q, "split": rng.random() < 0.3}
 
     def gen_op():
         r = rng.random()
@@ -779,30 +814,37 @@ def _gen_case(rng, tier, i):
                 {"k": "modify", "with": g, "del": None, "ins": [triple() + [0]], "using": [], "named": [],
                  "where": [], "filter": None}])
         if r < 0.12:
+            rep = repeat_pool()
             q = []
-            for _ in range(rng.randint(1, 3)):
-                t = triple() + [rng.choice(gs)]
+            for _ in range(rng.randint(3, 5) if rep else rng.randint(1, 3)):
+                t = triple() + [rng.choice(rep or gs)]
                 if rng.random() < 0.15:
                     t[rng.choice([0, 2])] = rng.choice([50, 51])
                 q.append(t)
-            return {"k": "insertdata", "q": _group(q)}
+            return {"k": "insertdata", **layout(q, rep)}
         if r < 0.22:
+            rep = repeat_pool()
             pool = init or [triple() + [0]]
             q = []
-            for _ in range(rng.randint(1, 3)):
+            for _ in range(rng.randint(3, 5) if rep else rng.randint(1, 3)):
                 t = list(rng.choice(pool)) if rng.random() < 0.7 else triple() + [rng.choice(gs)]
-                if rng.random() < 0.2:
+                if rep and rng.random() < 0.7:
+                    same = [x for x in pool if x[3] in rep]
+                    t = list(rng.choice(same)) if same and rng.random() < 0.7 else t[:3] + [rng.choice(rep)]
+                elif rng.random() < 0.2:
                     t[3] = rng.choice(gs)
                 if kind(t[0]) == "b" or kind(t[2]) == "b":
                     t = triple()[:0] + [1, t[1], 2, t[3]]     # DELETE DATA admits no blank nodes
                 q.append(t)
-            return {"k": "deletedata", "q": _group(q)}
+            return {"k": "deletedata", **layout(q, rep)}
         if r < 0.34:
             graphs = [rng.choice(gs)] if rng.random() < 0.7 else gs
             if not single and rng.random() < 0.2:
                 graphs = [44]                                   # GRAPH ?v44 { … }
-            q = pattern(rng.randint(1, 2), graphs)
-            return {"k": "deletewhere", "q": [[x if kind(x) != "b" else 41 for x in t[:3]] + [t[3]] for t in q]}
+            rep = repeat_pool([44] if graphs == [44] or (not single and rng.random() < 0.3) else None)
+            q = pattern(rng.randint(2, 3) if rep else rng.randint(1, 2), rep or graphs, grouped=not rep)
+            lay = layout([[x if kind(x) != "b" else 41 for x in t[:3]] + [t[3]] for t in q], rep)
+            return {"k": "deletewhere", **lay}
         if r < 0.72:
             return gen_modify(gs)
         s = rng.random() < 0.3
@@ -842,6 +884,7 @@ def _gen_case(rng, tier, i):
         if not single and rng.random() < 0.15:
             tg = tg + [46] + wvars[:2]                      # GRAPH ?unbound { … }, GRAPH ?boundToAnything { … }
         d = i = None
+        split = False
         if shape < 0.35:                           # overlap shapes: delete the matched triple, insert a permutation of it
             g = w0 = rng.choice([0, 0] + ([] if single else filled + [44]))
             if using:
@@ -872,14 +915,23 @@ def _gen_case(rng, tier, i):
             i = _group(i)
         else:
             c = rng.random()
-            if c < 0.7:
-                d = [[x if kind(x) != "t" else 40 for x in q] for q in template(wvars, rng.randint(1, 2), tg, False)]
-            if c > 0.25 or d is None:
-                i = template(wvars, rng.randint(1, 3), tg, rng.random() < 0.5)
+            rep = repeat_pool([44] if 44 in wvars and rng.random() < 0.5 else None)
+            if rep:                                # one graph (IRI or ?v44) named by several GRAPH blocks of a template
+                split = rng.random() < 0.3
+                if c < 0.7:
+                    d = [[x if kind(x) != "t" else 40 for x in q]
+                         for q in template(wvars, rng.randint(3, 4), rep, False, grouped=False)]
+                if c > 0.25 or d is None:
+                    i = template(wvars, rng.randint(3, 5), rep, rng.random() < 0.5, grouped=False)
+            else:
+                if c < 0.7:
+                    d = [[x if kind(x) != "t" else 40 for x in q] for q in template(wvars, rng.randint(1, 2), tg, False)]
+                if c > 0.25 or d is None:
+                    i = template(wvars, rng.randint(1, 3), tg, rng.random() < 0.5)
         if d is not None:
             d = [[x if kind(x) != "b" else 1 for x in q] for q in d]   # no blank nodes in DELETE templates
         return {"k": "modify", "with": w, "del": d, "ins": i, "using": using, "named": named, "where": where,
-                "filter": flt}
+                "filter": flt, "split": split}
 
     ops = [gen_op() for _ in range(rng.choice([1, 1, 1, 2, 2, 3, 4]))]
     return {"api": api, "union": union, "init": init, "reg": reg, "ops": ops, "prep": rng.random() < 0.25}
@@ -926,6 +978,9 @@ def shrink(case):
         yield {**case, "union": False}
     if case.get("prep"):
         yield {**case, "prep": False}
+    for i, op in enumerate(ops):
+        if op.get("split"):
+            yield {**case, "ops": ops[:i] + [{**op, "split": False}] + ops[i + 1:]}
 
 
 # ---- matchers of the (fixed) findings: shapes only; `fixed` witnesses are re-run first on every run and must pass
